@@ -1240,12 +1240,12 @@ int32 matrixRegisterSession(ssl_t *ssl)
     }
 
 /*
-    Register the incoming masterSecret and cipher, which could still be null,
-    depending on when we're called.
+    The entry is reserved for this handshake.  It becomes resumable (gets its
+    masterSecret and a non-NULL cipher) in matrixUpdateSession, once the
+    peer's Finished message has been verified.
  */
-    Memcpy(g_sessionTable[i].masterSecret, ssl->sec.masterSecret,
-        SSL_HS_MASTER_SIZE);
-    g_sessionTable[i].cipher = ssl->cipher;
+    Memset(g_sessionTable[i].masterSecret, 0x0, SSL_HS_MASTER_SIZE);
+    g_sessionTable[i].cipher = NULL;
     g_sessionTable[i].inUse += 1;
 /*
     The sessionId is the current serverRandom value, with the first 4 bytes
@@ -1443,8 +1443,8 @@ int32 matrixResumeSession(ssl_t *ssl)
 /******************************************************************************/
 /*
     Update session information in the cache.
-    This is called when we've determined the master secret and when we're
-    closing the connection to update various values in the cache.
+    This is called when the client's Finished message has been verified and
+    when we're closing the connection to update various values in the cache.
  */
 int32 matrixUpdateSession(ssl_t *ssl)
 {
@@ -1496,6 +1496,13 @@ int32 matrixUpdateSession(ssl_t *ssl)
     {
         /* The entry has been invalidated (or re-used) since this connection
            registered or resumed it: do not write our secret into it */
+        psUnlockMutex(&g_sessionTableLock);
+        return PS_FAILURE;
+    }
+    if (ssl->hsState != SSL_HS_DONE)
+    {
+        /* The handshake was abandoned before the peer's Finished message
+           was verified: nothing to resume from */
         psUnlockMutex(&g_sessionTableLock);
         return PS_FAILURE;
     }
